@@ -8,8 +8,9 @@ import (
 
 func TestReplay(t *testing.T) {
 	verif.ReplayMain(map[string]func(){
-		"HarnessFaults": HarnessFaults,
-		"HarnessNotify": HarnessNotify,
-		"HarnessRetry":  HarnessRetry,
+		"HarnessFaults":         HarnessFaults,
+		"HarnessHTTPAtMostOnce": HarnessHTTPAtMostOnce,
+		"HarnessNotify":         HarnessNotify,
+		"HarnessRetry":          HarnessRetry,
 	})
 }
